@@ -232,7 +232,8 @@ Defences(s, m) ==
 \* handle_null_request(), 'P' branch
 SrvPing(s, m) ==
     LET d == Defences(s, m) IN
-    IF d.done THEN d.s
+    IF m.id = 0 THEN s              \* "We can't handle id=0, that's 'no packet' to us. So drop request completely."
+    ELSE IF d.done THEN d.s
     ELSE LET s1 == Ack(s, m.dseq, m.dfrag)
              s2 == IF s1.qrs.id # 0 THEN Send(s1, "qrs").s ELSE s1
              r == IF s2.q.id # 0 THEN Send(s2, "q") ELSE [s |-> s2, again |-> TRUE]
@@ -248,7 +249,8 @@ FullPacket(s) ==
 \* handle_null_request(), data branch
 SrvData(s, m) ==
     LET d == Defences(s, m) IN
-    IF d.done THEN d.s
+    IF m.id = 0 THEN s              \* dropped completely, as for pings
+    ELSE IF d.done THEN d.s
     ELSE
     LET s1 == Ack(s, m.dseq, m.dfrag)
         oldfrag == m.useq = s1.iseq /\ m.ufrag <= s1.ifrag
